@@ -47,7 +47,7 @@ Example C05_class_nonempty :
   = true /\
   in_class gen_cfg
     (UBin UEq
-       (UWhen (UBWhen (UIsNull (UBin UEq a b)) (UPy (VStr "u"))
+       (UWhen (UBWhen (UIsNull (UBin UAdd a b)) (UPy (VStr "u"))
               (UBWhen (ULike s "a%") (USubstr s (UPy (VInt 1)) (UPy (VInt 2))) (UBElse (UPy (VStr "z"))))))
        (UAlias (UGetItemLit l 0) "first"))
   = true.
@@ -68,7 +68,7 @@ Theorem C05_refuted_eqNullSafe_operand_of_comparison :
                  udom en t = true /\ seval en e <> ueval en t.
 Proof.
   exists (UBin UEq (UNse p q) (UCol "r")).
-  eexists. exists (mkEnv ["p"; "q"; "r"] [VBool true; VBool false; VBool false] []).
+  eexists. exists (mkEnv ["p"; "q"; "r"] [VBool true; VNull; VNull] []).
   split; [reflexivity|]. split; [vm_compute; reflexivity|].
   split; [vm_compute; discriminate|]. split; [reflexivity|]. vm_compute. discriminate.
 Qed.
